@@ -297,5 +297,6 @@ UB:
 			break UB
 		}
 	}
+	verifPoint("monitor.done")
 	usagedone <- true
 }
